@@ -46,7 +46,7 @@ func (w *World) fileWritesOf(fn *ssa.Function, depth int) []fileWrite {
 		}
 		return -1
 	}
-	allInstrs(fn, false, func(_ *ssa.Function, _ *ssa.BasicBlock, _ int, ins ssa.Instruction) {
+	allInstrsLocal(fn, false, func(_ *ssa.Function, _ *ssa.BasicBlock, _ int, ins ssa.Instruction) {
 		cl, ok := ins.(ssa.CallInstruction)
 		if !ok {
 			return
@@ -76,7 +76,7 @@ func (w *World) fileWritesOf(fn *ssa.Function, depth int) []fileWrite {
 			if file == nil {
 				return
 			}
-			allInstrs(fn, false, func(_ *ssa.Function, _ *ssa.BasicBlock, _ int, in2 ssa.Instruction) {
+			allInstrsLocal(fn, false, func(_ *ssa.Function, _ *ssa.BasicBlock, _ int, in2 ssa.Instruction) {
 				c2, ok := in2.(ssa.CallInstruction)
 				if !ok {
 					return
@@ -133,24 +133,14 @@ func ruleWriteAfterOK(c *Ctx, r *Report, clause, fnKey, guard string, desc strin
 		r.add(clause, "guardedby", key, desc, []string{fnKey}, []string{w.pos(fi.Decl.Pos())}, fmt.Sprintf("no file write found in %s (directly or through a helper that writes what it is given)", fnKey))
 		return
 	}
-	avoid := map[edge]bool{}
 	var sites []string
-	for _, g := range callsIn(fi.SSA, false, nameIs(guard)) {
-		sites = append(sites, w.pos(g.Pos()))
-		for _, e := range okEdgesOfCall(g, -1) {
-			avoid[e] = true
-		}
-	}
 	viol := ""
-	if len(avoid) == 0 {
-		viol = fmt.Sprintf("result of %s is not tested in %s", guard, fnKey)
-	} else {
-		reach, _ := reachAvoiding(fi.SSA, nil, avoid)
-		for _, fw := range fws {
-			sites = append(sites, w.pos(fw.Site.Pos()))
-			if reach[fw.Site.Block()] {
-				viol = fmt.Sprintf("%s: a file is written (%s) on a path on which %s did not succeed", w.pos(fw.Site.Pos()), fw.Via, guard)
-			}
+	for _, fw := range fws {
+		sites = append(sites, w.pos(fw.Site.Pos()))
+		gs, ok := w.afterOK(fi.SSA, fw.Site, nameIs(guard), -1, guard, 0)
+		sites = append(sites, gs...)
+		if !ok {
+			viol = fmt.Sprintf("%s: a file is written (%s) on a path on which %s did not succeed", w.pos(fw.Site.Pos()), fw.Via, guard)
 		}
 	}
 	r.add(clause, "guardedby", key, desc, []string{fnKey, guard}, sites, viol)
